@@ -696,7 +696,7 @@ func c07rlJudge(r *c07rlRun) {
 			r.failf(fmt.Sprintf("frames lost: the connection stopped reading before the end of the stream (closed by %s)%s", c07rlOr(r.closedBy, "nothing"), r.afterTimeout()),
 				"%d of %d frames extracted, %d of %d bytes read, events %v", len(r.got), len(s.Frames), r.rc.pos, len(s.Bytes), r.events)
 		default:
-			r.failf("frames lost: all bytes were read but not every frame was extracted"+r.afterTimeout(),
+			r.failf("frames lost: all bytes were read but not every frame was extracted",
 				"%d of %d frames extracted, %d bytes left in the read buffer, consumed %d of %d, events %v", len(r.got), len(s.Frames), rest, r.consumed, len(s.Bytes), r.events)
 		}
 	}
